@@ -202,10 +202,13 @@ impl Consist {
 
     pub fn set_loco_vec(&mut self, loco_vec: Vec<Locomotive>) {
         self.loco_vec = loco_vec;
+        // same as what `new` and `init` derive from the locomotives
+        self.set_pwr_dyn_brake_max();
     }
 
     pub fn drain_loco_vec(&mut self, start: usize, end: usize) -> Vec<Locomotive> {
         let loco_vec = self.loco_vec.drain(start..end).collect();
+        self.set_pwr_dyn_brake_max();
         loco_vec
     }
 
